@@ -6,6 +6,7 @@ package main
 import (
 	"fmt"
 	"go/types"
+	"strings"
 
 	"golang.org/x/tools/go/ssa"
 )
@@ -476,6 +477,20 @@ type VC struct {
 	Info    map[string]string
 	Replay  *ReplaySpec
 	caseIdx int
+	aliasInst bool // an aliasing instance of the parameters: the requires may legitimately exclude it
+}
+
+// isAliasLabel: does the instance label name an aliased parameter (anything but "p=separate")?
+func isAliasLabel(l string) bool {
+	if l == "" {
+		return false
+	}
+	for _, part := range strings.Split(l, ",") {
+		if !strings.HasSuffix(part, "=separate") {
+			return true
+		}
+	}
+	return false
 }
 
 type paramInstance struct {
@@ -719,7 +734,7 @@ func (ld *Loaded) verifyContract(c *Contract, useContracts bool) (vcs []*VC, err
 		if c.Fn.Pkg.Pkg.Name() == "main" {
 			rk = "none" // commands talk to the OS: never executed by a replay
 		}
-		vcs = append(vcs, &VC{Name: name, Layer: c.Layer, Props: c.Props, Query: q, B: x.b, Exec: x, Replay: &ReplaySpec{Kind: rk, Contract: c}})
+		vcs = append(vcs, &VC{Name: name, Layer: c.Layer, Props: c.Props, Query: q, B: x.b, Exec: x, Replay: &ReplaySpec{Kind: rk, Contract: c}, aliasInst: isAliasLabel(inst.label)})
 	}
 	return vcs, nil
 }
